@@ -182,6 +182,11 @@ func (builder *RuleBuilder) BuildRuleFromResource(name, version string, resource
 		}
 	}
 
+	if errReporter.HasError() {
+		// rule entries that were rejected must not leave their nodes in the working memory,
+		// otherwise the knowledge base can no longer be cloned or stored.
+		knowledgeBase.WorkingMemory.RemoveUnreachable(knowledgeBase.MakeCatalog())
+	}
 	knowledgeBase.WorkingMemory.IndexVariables()
 
 	// Get the loading duration.
